@@ -1,4 +1,7 @@
 import TcheranVerif.Model.San
+import TcheranVerif.Proofs.SanLegal
+import TcheranVerif.Proofs.GenerateNodup
+import TcheranVerif.Proofs.GameInv
 /-!
 # C18 — SAN output: shape and check suffix (theorems over the writer model)
 
@@ -9,9 +12,20 @@ import TcheranVerif.Model.San
   gives check (`suffix_iff_check`);
 * `disambiguation_minimal` — no other like piece reaching the square ⇒ none; none of them on the
   mover's file ⇒ the file; otherwise none on its rank ⇒ the rank; otherwise both.
-That the text names no other legal move, and that the reader returns the move, is decided for every
-legal move of every generated position (like-piece constellations included) against the FIDE
-specification `San.spec`: partial.
+* **`san_reads_back`** / **`san_names_one_move`** — for every position satisfying the game invariant (one king a
+  side, e.p. target with the pushed pawn behind it; every legal position and everything reachable from one,
+  C02) and the legal-move list of the rules in any duplicate-free order (what the engine's generator returns,
+  C01): the writer answers for every legal move (`format_total`), the reader applied to that text returns
+  **exactly that move** — never an error, a panic or another move — and therefore two different legal moves
+  never get the same text. `Proofs/SanRoundTrip.lean` proves it at the level of characters for any context
+  with `San.WF` (suffix stripping, promotion split, capture split, destination, source resolution against the
+  writer's disambiguation: `amb_unique`), `Proofs/SanLegal.lean` derives `WF` from the rules (pawn geometry,
+  one king, (source, destination, promotion) identifies a legal move). `san_engine` instantiates it with
+  the engine's own generator. All four defects repaired by the C18 `fix:` commits make one of these lemmas
+  false on the old code.
+That the text is the *standard* one (piece letters, `x`, `=Q`, `O-O`, minimal disambiguation as FIDE words
+it) is `disambiguation_minimal` / `format_shape` plus the comparison of every generated text with the
+independent FIDE specification `San.spec` in the `san` stream.
 -/
 namespace Tcheran.Props.C18
 open Tcheran Tcheran.San
@@ -29,7 +43,7 @@ theorem piece_noPlus (k : PieceKind) : noPlus (pieceLetter k) = true := by cases
 theorem promo_noPlus (p : Promo) : noPlus ("=" ++ promoLetter p) = true := by cases p <;> decide
 
 /-- the part of the text before the check suffix -/
-def body (c : Ctx) (mv : Move) : Option String := do
+def body (c : San.Ctx) (mv : Move) : Option String := do
   let k ← c.kindAt mv.src
   if k = .king ∧ mv.src = Game.kingStart c.player ∧ mv.dst = Game.kingsideCastleDest c.player then pure "O-O"
   else if k = .king ∧ mv.src = Game.kingStart c.player ∧ mv.dst = Game.queensideCastleDest c.player then pure "O-O-O"
@@ -47,7 +61,7 @@ def body (c : Ctx) (mv : Move) : Option String := do
     pure (ident ++ ambText ++ x ++ mv.dst.notation ++ promo)
 
 /-- **format_shape**: text = body ++ (“+” iff the move gives check), castling included -/
-theorem format_shape (c : Ctx) (mv : Move) :
+theorem format_shape (c : San.Ctx) (mv : Move) :
     format c mv = (body c mv).map (fun b => b ++ (if c.givesCheck mv then "+" else "")) := by
   unfold format body
   cases hk : c.kindAt mv.src with
@@ -64,7 +78,7 @@ theorem format_shape (c : Ctx) (mv : Move) :
           simp only [Option.map, String.append_assoc]
           rfl
 
-theorem body_has_no_plus (c : Ctx) (mv : Move) (b : String) (h : body c mv = some b) : noPlus b = true := by
+theorem body_has_no_plus (c : San.Ctx) (mv : Move) (b : String) (h : body c mv = some b) : noPlus b = true := by
   unfold body at h
   cases hk : c.kindAt mv.src with
   | none => rw [hk] at h; cases h
@@ -101,7 +115,7 @@ theorem body_has_no_plus (c : Ctx) (mv : Move) (b : String) (h : body c mv = som
             | some p => exact promo_noPlus p
 
 /-- **disambiguation_minimal** -/
-theorem disambiguation_minimal (c : Ctx) (mv : Move) (k : PieceKind) (hk : c.kindAt mv.src = some k)
+theorem disambiguation_minimal (c : San.Ctx) (mv : Move) (k : PieceKind) (hk : c.kindAt mv.src = some k)
     (hnp : k ≠ .pawn) (hnk : k ≠ .king) :
     let cands := c.legal.filter fun m => m.dst = mv.dst ∧ c.kindAt m.src = some k ∧ m ≠ mv
     requiredAmbiguity c mv = some (
@@ -120,11 +134,75 @@ theorem disambiguation_minimal (c : Ctx) (mv : Move) (k : PieceKind) (hk : c.kin
         (fun m => decide (m.src.rank = mv.src.rank)) <;> simp
 
 /-- pawns and kings are never disambiguated by the piece rule -/
-theorem pawn_king_no_disambiguation (c : Ctx) (mv : Move) (k : PieceKind) (hk : c.kindAt mv.src = some k)
+theorem pawn_king_no_disambiguation (c : San.Ctx) (mv : Move) (k : PieceKind) (hk : c.kindAt mv.src = some k)
     (h : k = .pawn ∨ k = .king) : requiredAmbiguity c mv = some .none := by
   unfold requiredAmbiguity
   simp only [hk]
   rw [if_pos h]
+
+/-- the writer answers for every legal move -/
+theorem format_total (c : San.Ctx) (mv : Move) (h : WF c mv) : ∃ t, format c mv = some t := by
+  have hk := h.kinds mv h.mem
+  unfold format
+  cases hkk : c.kindAt mv.src with
+  | none => rw [hkk] at hk; cases hk
+  | some k =>
+    simp only [bind, Option.bind, pure]
+    split
+    · exact ⟨_, rfl⟩
+    · split
+      · exact ⟨_, rfl⟩
+      · have : ∃ a, requiredAmbiguity c mv = some a := by
+          unfold requiredAmbiguity
+          simp only [hkk]
+          split
+          · exact ⟨_, rfl⟩
+          · split <;> exact ⟨_, rfl⟩
+        obtain ⟨a, ha⟩ := this
+        rw [ha]
+        exact ⟨_, rfl⟩
+
+/-- **parse ∘ format** for any context with the well-formedness the rules guarantee -/
+theorem parse_format (c : San.Ctx) (mv : Move) (t : String) (h : WF c mv) (hf : format c mv = some t) :
+    parse c t = .ok mv := San.parse_format c mv t h hf
+
+/-- **san_reads_back**: in every position satisfying the game invariant, reading the text written for a legal
+move returns that move -/
+theorem san_reads_back (pos : Rules.Pos) (hi : GInv pos) (legal : List Move) (hn : legal.Nodup)
+    (hex : ∀ m, m ∈ legal ↔ m ∈ Rules.legalMoves pos) (gc : Move → Bool) (mv : Move) (hmv : mv ∈ legal) :
+    ∃ t, format (rulesCtx pos legal gc) mv = some t ∧ parse (rulesCtx pos legal gc) t = .ok mv := by
+  have h := san_wf pos hi legal hn hex gc mv hmv
+  obtain ⟨t, ht⟩ := format_total _ mv h
+  exact ⟨t, ht, San.parse_format _ mv t h ht⟩
+
+/-- **san_names_one_move**: the text of a legal move is the text of no other legal move of the position -/
+theorem san_names_one_move (pos : Rules.Pos) (hi : GInv pos) (legal : List Move) (hn : legal.Nodup)
+    (hex : ∀ m, m ∈ legal ↔ m ∈ Rules.legalMoves pos) (gc : Move → Bool) (m1 m2 : Move)
+    (h1 : m1 ∈ legal) (h2 : m2 ∈ legal) (t : String)
+    (f1 : format (rulesCtx pos legal gc) m1 = some t) (f2 : format (rulesCtx pos legal gc) m2 = some t) : m1 = m2 :=
+  San.format_injective _ m1 m2 t (san_wf pos hi legal hn hex gc m1 h1) (san_wf pos hi legal hn hex gc m2 h2) f1 f2
+
+/-- the same for the engine: its own generator (C01: exact and duplicate-free), its own board -/
+theorem san_engine (T : SliderTables) (g : Game) (hc : g.board.Consistent)
+    (hl : Rules.legalPos (Rules.ofGame g) = true) (gc : Move → Bool) :
+    ∃ caps cache quiets, generateCaptures g = some (caps, cache) ∧ generateQuiets g cache = some quiets ∧
+      ∀ mv ∈ caps ++ quiets, ∃ t,
+        format { player := g.player, legal := caps ++ quiets,
+                 kindAt := fun s => (g.board.pieceAt s).map (·.kind), givesCheck := gc } mv = some t ∧
+        parse { player := g.player, legal := caps ++ quiets,
+                kindAt := fun s => (g.board.pieceAt s).map (·.kind), givesCheck := gc } t = .ok mv := by
+  obtain ⟨k, hk⟩ := posH_of_legal g hc hl
+  obtain ⟨caps, cache, quiets, h1, h2, h3⟩ := Tcheran.generate_exact T g k hk
+  refine ⟨caps, cache, quiets, h1, h2, ?_⟩
+  intro mv hmv
+  exact san_reads_back (Rules.ofGame g) (ginv_of_legal _ hl) (caps ++ quiets)
+    (generate_nodup T g k hk caps cache quiets h1 h2) h3 gc mv hmv
+
+/-- non-vacuity: `7b/8/8/4Pp2/3K4/8/8/k7 w - f6` satisfies the invariant, so every hypothesis of
+`san_reads_back` is met by its legal-move list -/
+example : Rules.legalPos ⟨(((((Board.empty.setAt ⟨27, by decide⟩ ⟨.king, .white⟩).setAt ⟨0, by decide⟩ ⟨.king, .black⟩).setAt
+    ⟨36, by decide⟩ ⟨.pawn, .white⟩).setAt ⟨37, by decide⟩ ⟨.pawn, .black⟩).setAt ⟨63, by decide⟩ ⟨.bishop, .black⟩).squares,
+    .white, Rights.none, some ⟨45, by decide⟩, 0, 0⟩ = true := by decide +kernel
 
 end Tcheran.Props.C18
 #print axioms Tcheran.Props.C18.noPlus_append
@@ -137,3 +215,8 @@ end Tcheran.Props.C18
 #print axioms Tcheran.Props.C18.body_has_no_plus
 #print axioms Tcheran.Props.C18.disambiguation_minimal
 #print axioms Tcheran.Props.C18.pawn_king_no_disambiguation
+#print axioms Tcheran.Props.C18.format_total
+#print axioms Tcheran.Props.C18.parse_format
+#print axioms Tcheran.Props.C18.san_reads_back
+#print axioms Tcheran.Props.C18.san_names_one_move
+#print axioms Tcheran.Props.C18.san_engine
